@@ -3,17 +3,24 @@
 package c13
 
 import (
+	stdcontext "context"
+	"errors"
 	"fmt"
 	"testing"
 
 	"github.com/megaease/easegress/pkg/filters"
+	"github.com/megaease/easegress/pkg/object/mqttproxy"
 	"github.com/megaease/easegress/pkg/object/pipeline"
+	"github.com/megaease/easegress/pkg/resilience"
 )
 
-// Minimal standalone reproductions of the genuine defects listed in proposed_known.jsonl.
-// Not part of the check (the run regexps of spec.json do not match TestVerifRepro*); run with
-//   build/C13/C13-<hash>.test -test.run '^TestVerifReproC13' -test.v
-// Each case prints the panic it provokes; a case that no longer panics is reported as FIXED.
+// Minimal standalone reproductions. Not part of the check (the run regexps of spec.json do not
+// match TestVerifRepro*); run with
+//   VERIF_KNOWN= build/C13/C13-<hash>.test -test.run '^TestVerifReproC13' -test.v
+// One sub-test per input. A sub-test FAILS when the accepted spec panics (printing the violation
+// key): the failing ones are the defects that are still open (proposed_known.jsonl); the ones that
+// pass are regression cases for defects fixed in /repo meanwhile (rejected by validation now, or
+// running without a panic).
 
 type vfReproFilter struct {
 	name    string
@@ -33,108 +40,187 @@ func TestVerifReproC13Filters(t *testing.T) {
 	pub := vfMQTTReq{Type: "publish", ClientID: "c1", Topic: "a/b", Payload: "x"}
 	B := env.pools.BackendURL
 	cases := []vfReproFilter{
-		{name: "fallback-without-response", yaml: "name: f\nkind: Fallback\nmockCode: 503\n", req: get},
-		{name: "proxy-weightedRandom-zero-weights", yaml: "name: f\nkind: Proxy\npools:\n- servers:\n  - url: " + B + "\n  - url: " + B + "\n  loadBalance:\n    policy: weightedRandom\n", req: get},
-		{name: "proxy-compression-with-streamed-response", yaml: "name: f\nkind: Proxy\ncompression:\n  minLength: 0\npools:\n- serverMaxBodySize: -1\n  servers:\n  - url: " + B + "\n", req: get},
-		{name: "ratelimiter-zero-refresh-period", yaml: "name: f\nkind: RateLimiter\npolicies:\n- name: p\n  limitRefreshPeriod: 0s\n  limitForPeriod: 1\nurls:\n- url:\n    prefix: /\n  policyRef: p\n", req: get},
-		{name: "ratelimiter-inherit-duplicate-urls", yaml: "name: f\nkind: RateLimiter\npolicies:\n- name: p\n  limitForPeriod: 1\nurls:\n- url:\n    prefix: /\n  policyRef: p\n- url:\n    prefix: /\n  policyRef: p\n", req: get, inherit: true},
+		// still open
 		{name: "requestadaptor-deflate", yaml: "name: f\nkind: RequestAdaptor\ncompress: deflate\n", req: get},
 		{name: "requestadaptor-compress-and-decompress", yaml: "name: f\nkind: RequestAdaptor\ncompress: gzip\ndecompress: gzip\n", req: get},
 		{name: "requestadaptor-body-and-decompress", yaml: "name: f\nkind: RequestAdaptor\nbody: x\ndecompress: gzip\n", req: get},
 		{name: "responseadaptor-deflate", yaml: "name: f\nkind: ResponseAdaptor\ndecompress: deflate\n", req: get},
-		{name: "requestbuilder-template-does-not-parse", yaml: "name: f\nkind: RequestBuilder\ntemplate: '{{'\n", req: get},
-		{name: "responsebuilder-template-does-not-parse", yaml: "name: f\nkind: ResponseBuilder\ntemplate: '{{ nosuchfunc 1 }}'\n", req: get},
-		{name: "validator-signature-without-accessKeys", yaml: "name: f\nkind: Validator\nsignature: {}\n", req: get},
-		{name: "validator-oauth2-empty", yaml: "name: f\nkind: Validator\noauth2: {}\n", req: bearer},
-		{name: "validator-oauth2-endpoint-not-a-url", yaml: "name: f\nkind: Validator\noauth2:\n  tokenIntrospect:\n    endPoint: 'http://[::1'\n    basicAuth: a\n", req: bearer},
-		{name: "validator-oauth2-endpoint-not-a-url-2", yaml: "name: f\nkind: Validator\noauth2:\n  tokenIntrospect:\n    endPoint: '%zz'\n", req: bearer},
-		{name: "validator-basicauth-missing-file", yaml: "name: f\nkind: Validator\nbasicAuth:\n  mode: FILE\n  userFile: " + env.pools.MissingFile + "\n", req: basic},
-		{name: "validator-headers-null", yaml: "name: f\nkind: Validator\nheaders:\n  X-A: null\n", req: get},
-		{name: "mock-rules-null", yaml: "name: f\nkind: Mock\nrules: [null]\n", req: get},
-		{name: "mock-match-headers-null", yaml: "name: f\nkind: Mock\nrules:\n- code: 200\n  match:\n    headers:\n      X-A: null\n", req: get},
-		{name: "headertojson-null", yaml: "name: f\nkind: HeaderToJSON\nheaderMap: [null]\n", req: get},
-		{name: "meshadaptor-null", yaml: "name: f\nkind: MeshAdaptor\nserviceCanaries: [null]\n", req: get},
+		{name: "responseadaptor-compress-and-decompress", yaml: "name: f\nkind: ResponseAdaptor\ncompress: gzip\ndecompress: gzip\n", req: get},
+		{name: "responseadaptor-body-and-decompress", yaml: "name: f\nkind: ResponseAdaptor\nbody: x\ndecompress: gzip\n", req: get},
 		{name: "kafka-empty-backend", yaml: "name: f\nkind: Kafka\nbackend: []\ntopic:\n  default: t\n", req: get},
 		{name: "kafka-empty-dynamic-header", yaml: "name: f\nkind: Kafka\nbackend: ['127.0.0.1:1']\ntopic:\n  default: t\n  dynamic: {}\n", req: get},
 		{name: "kafkamqtt-empty-backend", yaml: "name: f\nkind: KafkaMQTT\nbackend: []\ntopic:\n  default: t\nmqtt:\n  topicKey: ''\n  headerKey: ''\n  payloadKey: ''\n", mqtt: &pub},
-		{name: "mqttclientauth-null", yaml: "name: f\nkind: MQTTClientAuth\nauth: [null]\n", mqtt: &pub},
-		{name: "topicmapper-negative-matchIndex", yaml: "name: f\nkind: TopicMapper\nmatchIndex: -1\nroute: []\npolicies: []\nsetKV:\n  topic: t\n  headers: h\n", mqtt: &pub},
-		{name: "topicmapper-policies-null", yaml: "name: f\nkind: TopicMapper\nmatchIndex: 0\nroute: []\npolicies: [null]\nsetKV:\n  topic: t\n  headers: h\n", mqtt: &pub},
-		{name: "topicmapper-route-null", yaml: "name: f\nkind: TopicMapper\nmatchIndex: 0\nroute: [null]\npolicies: []\nsetKV:\n  topic: t\n  headers: h\n", mqtt: &pub},
+		// fixed in /repo
+		{name: "fixed/fallback-without-response", yaml: "name: f\nkind: Fallback\nmockCode: 503\n", req: get},
+		{name: "fixed/proxy-weightedRandom-zero-weights", yaml: "name: f\nkind: Proxy\npools:\n- servers:\n  - url: " + B + "\n  - url: " + B + "\n  loadBalance:\n    policy: weightedRandom\n", req: get},
+		{name: "fixed/proxy-compression-with-streamed-response", yaml: "name: f\nkind: Proxy\ncompression:\n  minLength: 0\npools:\n- serverMaxBodySize: -1\n  servers:\n  - url: " + B + "\n", req: get},
+		{name: "fixed/ratelimiter-zero-refresh-period", yaml: "name: f\nkind: RateLimiter\npolicies:\n- name: p\n  limitRefreshPeriod: 0s\n  limitForPeriod: 1\nurls:\n- url:\n    prefix: /\n  policyRef: p\n", req: get},
+		{name: "fixed/ratelimiter-inherit-duplicate-urls", yaml: "name: f\nkind: RateLimiter\npolicies:\n- name: p\n  limitForPeriod: 1\nurls:\n- url:\n    prefix: /\n  policyRef: p\n- url:\n    prefix: /\n  policyRef: p\n", req: get, inherit: true},
+		{name: "fixed/requestbuilder-template-does-not-parse", yaml: "name: f\nkind: RequestBuilder\ntemplate: '{{'\n", req: get},
+		{name: "fixed/responsebuilder-template-does-not-parse", yaml: "name: f\nkind: ResponseBuilder\ntemplate: '{{ nosuchfunc 1 }}'\n", req: get},
+		{name: "fixed/validator-signature-without-accessKeys", yaml: "name: f\nkind: Validator\nsignature: {}\n", req: get},
+		{name: "fixed/validator-oauth2-empty", yaml: "name: f\nkind: Validator\noauth2: {}\n", req: bearer},
+		{name: "fixed/validator-oauth2-endpoint-not-a-url", yaml: "name: f\nkind: Validator\noauth2:\n  tokenIntrospect:\n    endPoint: 'http://[::1'\n    basicAuth: a\n", req: bearer},
+		{name: "fixed/validator-oauth2-endpoint-not-a-url-2", yaml: "name: f\nkind: Validator\noauth2:\n  tokenIntrospect:\n    endPoint: '%zz'\n", req: bearer},
+		{name: "fixed/validator-basicauth-missing-file", yaml: "name: f\nkind: Validator\nbasicAuth:\n  mode: FILE\n  userFile: " + env.pools.MissingFile + "\n", req: basic},
+		{name: "fixed/validator-headers-null", yaml: "name: f\nkind: Validator\nheaders:\n  X-A: null\n", req: get},
+		{name: "fixed/mock-rules-null", yaml: "name: f\nkind: Mock\nrules: [null]\n", req: get},
+		{name: "fixed/mock-match-headers-null", yaml: "name: f\nkind: Mock\nrules:\n- code: 200\n  match:\n    headers:\n      X-A: null\n", req: get},
+		{name: "fixed/headertojson-null", yaml: "name: f\nkind: HeaderToJSON\nheaderMap: [null]\n", req: get},
+		{name: "fixed/meshadaptor-null", yaml: "name: f\nkind: MeshAdaptor\nserviceCanaries: [null]\n", req: get},
+		{name: "fixed/mqttclientauth-null", yaml: "name: f\nkind: MQTTClientAuth\nauth: [null]\n", mqtt: &pub},
+		{name: "fixed/topicmapper-negative-matchIndex", yaml: "name: f\nkind: TopicMapper\nmatchIndex: -1\nroute: []\npolicies: []\nsetKV:\n  topic: t\n  headers: h\n", mqtt: &pub},
+		{name: "fixed/topicmapper-policies-null", yaml: "name: f\nkind: TopicMapper\nmatchIndex: 0\nroute: []\npolicies: [null]\nsetKV:\n  topic: t\n  headers: h\n", mqtt: &pub},
+		{name: "fixed/topicmapper-route-null", yaml: "name: f\nkind: TopicMapper\nmatchIndex: 0\nroute: [null]\npolicies: []\nsetKV:\n  topic: t\n  headers: h\n", mqtt: &pub},
 	}
 	for _, c := range cases {
-		raw := vfFromYAML(c.yaml)
-		kindName := fmt.Sprint(raw["kind"])
-		spec, err := filters.NewSpec(env.super, "pl1", raw)
-		if err != nil {
-			t.Logf("%-45s REJECTED by validation (fixed?): %v", c.name, err)
-			continue
-		}
-		f := filters.GetKind(kindName).CreateInstance(spec)
-		if p, txt, site, _ := vfRecoverRoot(func() { f.Init() }); p {
-			t.Logf("%-45s Init panics: key=[%s] text=%q", c.name, vfKey2(kindName, site, txt), txt)
-			continue
-		}
-		if c.inherit {
-			spec2, _ := filters.NewSpec(env.super, "pl1", vfFromYAML(c.yaml))
-			f2 := filters.GetKind(kindName).CreateInstance(spec2)
-			if p, txt, site, _ := vfRecoverRoot(func() { f2.Inherit(f) }); p {
-				t.Logf("%-45s Inherit panics: key=[%s] text=%q", c.name, vfKey2(kindName, site, txt), txt)
-				continue
+		c := c
+		t.Run(c.name, func(t *testing.T) {
+			raw := vfFromYAML(c.yaml)
+			kindName := fmt.Sprint(raw["kind"])
+			spec, err := filters.NewSpec(env.super, "pl1", raw)
+			if err != nil {
+				t.Logf("rejected by validation: %v", err)
+				return
 			}
-			f = f2
-		}
-		ctx := func() interface{} { return nil }
-		_ = ctx
-		var p bool
-		var txt, site string
-		if c.mqtt != nil {
-			cx := c.mqtt.Context()
-			p, txt, site, _ = vfRecoverRoot(func() { f.Handle(cx) })
-		} else {
-			cx, _ := c.req.Context(env)
-			p, txt, site, _ = vfRecoverRoot(func() { f.Handle(cx) })
-		}
-		if p {
-			t.Logf("%-45s Handle panics: key=[%s] text=%q", c.name, vfKey2(kindName, site, txt), txt)
-			continue
-		}
-		vfRecover(func() { f.Close() })
-		t.Logf("%-45s FIXED / no panic; spec:\n%s", c.name, spec.YAMLConfig())
+			f := filters.GetKind(kindName).CreateInstance(spec)
+			if p, txt, site, _ := vfRecoverRoot(func() { f.Init() }); p {
+				t.Errorf("REPRODUCED Init panics: key=[%s] text=%q", vfKey2(kindName, site, txt), txt)
+				return
+			}
+			defer func() { vfRecover(func() { f.Close() }) }()
+			if c.inherit {
+				spec2, _ := filters.NewSpec(env.super, "pl1", vfFromYAML(c.yaml))
+				f2 := filters.GetKind(kindName).CreateInstance(spec2)
+				if p, txt, site, _ := vfRecoverRoot(func() { f2.Inherit(f) }); p {
+					t.Errorf("REPRODUCED Inherit panics: key=[%s] text=%q", vfKey2(kindName, site, txt), txt)
+					return
+				}
+				f = f2
+			}
+			var p bool
+			var txt, site string
+			if c.mqtt != nil {
+				cx := c.mqtt.Context()
+				p, txt, site, _ = vfRecoverRoot(func() { f.Handle(cx) })
+			} else {
+				cx, _ := c.req.Context(env)
+				p, txt, site, _ = vfRecoverRoot(func() { f.Handle(cx); vfDrain(cx) })
+			}
+			if p {
+				t.Errorf("REPRODUCED Handle panics: key=[%s] text=%q", vfKey2(kindName, site, txt), txt)
+				return
+			}
+			t.Logf("accepted and served without a panic")
+		})
 	}
 }
 
 func TestVerifReproC13Pipeline(t *testing.T) {
 	env := vfGetEnv(t)
 	B := env.pools.BackendURL
-	get := vfHTTPReq{Method: "GET", Path: "/status/500", Host: "example.com", Remote: "192.0.2.1:1", Body: "empty", Resp: "none", Auth: "none"}
+	get := vfHTTPReq{Method: "GET", Path: "/status/500", Host: "example.com", Remote: "192.0.2.1:1", Body: "empty", Resp: "none", Auth: "none", Hdr: [][2]string{{"X-A", "v1"}}}
 	proxy := func(extra string) string {
 		return "name: pl\nkind: Pipeline\nfilters:\n- name: p\n  kind: Proxy\n  pools:\n  - servers:\n    - url: " + B + "\n" + extra
 	}
-	cases := []struct{ name, yaml string }{
-		{"retry-policy-not-found", proxy("    retryPolicy: nope\n")},
-		{"circuitbreaker-policy-not-found", proxy("    circuitBreakerPolicy: nope\n")},
-		{"retry-policy-of-wrong-kind", proxy("    retryPolicy: cb\nresilience:\n- name: cb\n  kind: CircuitBreaker\n")},
-		{"circuitbreaker-policy-of-wrong-kind", proxy("    circuitBreakerPolicy: r\nresilience:\n- name: r\n  kind: Retry\n")},
-		{"retry-negative-randomization-factor", proxy("    failureCodes: [500]\n    retryPolicy: r\nresilience:\n- name: r\n  kind: Retry\n  waitDuration: 1ms\n  randomizationFactor: -0.1\n")},
-		{"flow-namespace-without-request", "name: pl\nkind: Pipeline\nflow:\n- filter: m\n  namespace: nsX\nfilters:\n- name: m\n  kind: Mock\n  rules:\n  - code: 200\n    match: {}\n"},
+	cases := []struct {
+		name, yaml string
+		usesNS     bool
+	}{
+		// still open
+		{"flow-namespace-without-request", "name: pl\nkind: Pipeline\nflow:\n- filter: m\n  namespace: nsX\nfilters:\n- name: m\n  kind: Mock\n  rules:\n  - code: 200\n    match: {}\n", true},
+		{"flow-namespace-without-request-nil-deref", "name: pl\nkind: Pipeline\nflow:\n- filter: h\n  namespace: nsX\nfilters:\n- name: h\n  kind: HeaderToJSON\n  headerMap:\n  - header: X-A\n    json: a\n", true},
+		{"flow-namespace-builder-fails-and-jumps", "name: pl\nkind: Pipeline\nflow:\n- filter: b\n  namespace: ns1\n  jumpIf:\n    buildErr: m\n- filter: m\n  namespace: ns1\nfilters:\n- name: b\n  kind: RequestBuilder\n  template: \"method: 'B A D'\\nurl: '::'\\n\"\n- name: m\n  kind: Mock\n  rules:\n  - code: 200\n    match: {}\n", true},
+		// fixed in /repo
+		{"fixed/retry-policy-not-found", proxy("    retryPolicy: nope\n"), false},
+		{"fixed/circuitbreaker-policy-not-found", proxy("    circuitBreakerPolicy: nope\n"), false},
+		{"fixed/retry-policy-of-wrong-kind", proxy("    retryPolicy: cb\nresilience:\n- name: cb\n  kind: CircuitBreaker\n"), false},
+		{"fixed/circuitbreaker-policy-of-wrong-kind", proxy("    circuitBreakerPolicy: r\nresilience:\n- name: r\n  kind: Retry\n"), false},
+		{"fixed/retry-negative-randomization-factor", proxy("    failureCodes: [500]\n    retryPolicy: r\nresilience:\n- name: r\n  kind: Retry\n  waitDuration: 1ms\n  randomizationFactor: -0.1\n"), false},
 	}
 	for _, c := range cases {
-		spec, obj, err := vfNewObject(env, c.yaml)
-		if err != nil {
-			t.Logf("%-45s REJECTED by validation (fixed?): %v", c.name, err)
-			continue
-		}
-		p := obj.(*pipeline.Pipeline)
-		if pn, txt, site, fk := vfRecoverRoot(func() { p.Init(spec, vfMapper) }); pn {
-			t.Logf("%-45s Init panics: key=[%s] text=%q", c.name, vfKey2(fk, site, txt), txt)
-			continue
-		}
-		cx, _ := get.Context(env)
-		if pn, txt, site, fk := vfRecoverRoot(func() { p.Handle(cx) }); pn {
-			t.Logf("%-45s Handle panics: key=[%s] text=%q", c.name, vfKey2(fk, site, txt), txt)
-			continue
-		}
-		t.Logf("%-45s FIXED / no panic", c.name)
+		c := c
+		t.Run(c.name, func(t *testing.T) {
+			spec, obj, err := vfNewObject(env, c.yaml)
+			if err != nil {
+				t.Logf("rejected by validation: %v", err)
+				return
+			}
+			key := func(fk, site, txt string) string {
+				if c.usesNS {
+					return "flow-node-namespace-without-request panic=" + vfClass(txt)
+				}
+				return vfKey2(fk, site, txt)
+			}
+			p := obj.(*pipeline.Pipeline)
+			if pn, txt, site, fk := vfRecoverRoot(func() { p.Init(spec, vfMapper) }); pn {
+				t.Errorf("REPRODUCED Init panics: key=[%s] text=%q", key(fk, site, txt), txt)
+				return
+			}
+			defer func() { vfRecover(func() { p.Close() }) }()
+			cx, _ := get.Context(env)
+			if pn, txt, site, fk := vfRecoverRoot(func() { p.Handle(cx) }); pn {
+				t.Errorf("REPRODUCED Handle panics: key=[%s] (raw key %s) text=%q", key(fk, site, txt), vfKey2(fk, site, txt), txt)
+				return
+			}
+			t.Logf("accepted and served without a panic")
+		})
+	}
+}
+
+func TestVerifReproC13Resilience(t *testing.T) {
+	cases := []struct{ name, yaml string }{
+		// still open
+		{"retry-max-waitDuration-overflow", "name: r\nkind: Retry\nmaxAttempts: 2\nwaitDuration: 2562047h\nrandomizationFactor: 1\n"},
+		// fixed in /repo
+		{"fixed/retry-negative-randomization-factor", "name: r\nkind: Retry\nmaxAttempts: 2\nwaitDuration: 1ms\nrandomizationFactor: -0.1\n"},
+	}
+	for _, c := range cases {
+		c := c
+		t.Run(c.name, func(t *testing.T) {
+			pol, err := resilience.NewPolicy(vfFromYAML(c.yaml))
+			if err != nil {
+				t.Logf("rejected by validation: %v", err)
+				return
+			}
+			w := pol.CreateWrapper()
+			ctx, cancel := stdcontext.WithCancel(stdcontext.Background())
+			cancel() // the client is gone: the wrapper must not sleep
+			if pn, txt, site, _ := vfRecoverRoot(func() { _ = w.Wrap(func(stdcontext.Context) error { return errors.New("boom") })(ctx) }); pn {
+				t.Errorf("REPRODUCED a wrapped call panics: key=[%s] text=%q", vfKey2(pol.Kind(), site, txt), txt)
+				return
+			}
+			t.Logf("accepted and wrapped a failing call without a panic")
+		})
+	}
+}
+
+func TestVerifReproC13MQTTProxy(t *testing.T) {
+	env := vfGetEnv(t)
+	cases := []struct{ name, yaml string }{
+		// all fixed in /repo (f0a9dfb)
+		{"fixed/useTLS-without-certificate", "useTLS: true\n"},
+		{"fixed/rule-without-when", "rules:\n- pipeline: pl1\n"},
+		{"fixed/rule-with-unknown-packet-type", "rules:\n- when:\n    packetType: Foo\n  pipeline: pl1\n"},
+		{"fixed/two-rules-for-one-packet-type", "rules:\n- when:\n    packetType: Connect\n  pipeline: pl1\n- when:\n    packetType: Connect\n  pipeline: pl2\n"},
+	}
+	for _, c := range cases {
+		c := c
+		t.Run(c.name, func(t *testing.T) {
+			text := fmt.Sprintf("name: mq\nkind: MQTTProxy\nport: %d\n%s", vfPickPort(), c.yaml)
+			spec, obj, err := vfNewObject(env, text)
+			if err != nil {
+				t.Logf("rejected by validation: %v", err)
+				return
+			}
+			mp := obj.(*mqttproxy.MQTTProxy)
+			if pn, txt, site, fk := vfRecoverRoot(func() { mp.Init(spec, &vfMapperT{m: map[string]*vfGuardedHandler{}}) }); pn {
+				_ = fk
+				t.Errorf("REPRODUCED Init panics: key=[%s] text=%q", vfKey2("MQTTProxy", site, txt), txt)
+				return
+			}
+			vfRecover(func() { mp.Close() })
+			t.Logf("accepted and started without a panic")
+		})
 	}
 }
